@@ -688,7 +688,10 @@ class DateTime(datetime.datetime, Date):
         """
         Add timedelta duration to the instance.
         """
-        if isinstance(delta, pendulum.Interval):
+        if isinstance(delta, pendulum.Interval) or (
+            isinstance(delta, pendulum.Duration) and not hasattr(delta, "_signature")
+        ):
+            # An AbsoluteDuration keeps no record of its constructor arguments
             return self.add(
                 years=delta.years,
                 months=delta.months,
@@ -709,6 +712,19 @@ class DateTime(datetime.datetime, Date):
         Remove timedelta duration from the instance.
         """
         if isinstance(delta, pendulum.Duration):
+            if not hasattr(delta, "_signature"):
+                # An AbsoluteDuration keeps no record of its constructor arguments
+                return self.subtract(
+                    years=delta.years,
+                    months=delta.months,
+                    weeks=delta.weeks,
+                    days=delta.remaining_days,
+                    hours=delta.hours,
+                    minutes=delta.minutes,
+                    seconds=delta.remaining_seconds,
+                    microseconds=delta.microseconds,
+                )
+
             return self.subtract(**delta._signature)  # type: ignore[attr-defined]
 
         return self.subtract(seconds=delta.total_seconds())
